@@ -61,6 +61,24 @@ def check_program(shard, prog, base_argv, option_sets, choices_list, end_too=Fal
         datas.append(d)
     if not datas:
         return
+    # byte sweep: after up to four prefixes of the guided inputs every byte value once (how a transition's byte set is rendered - range
+    # checks, collapsed runs, single comparisons - depends on the options; one representative per class would miss a single dropped value)
+    pres = []
+    for d in datas[:2]:
+        for cut in (0, len(d) // 2, max(0, len(d) - 1)):
+            if d[:cut] not in pres:
+                pres.append(d[:cut])
+    nsweep = 0
+    for pre in pres[:4]:
+        for b in range(256):
+            w = pre + bytes([b])
+            try:
+                trace.am_calls(m, [w[j:j + 1] for j in range(len(w))], call_end=False, indirect=comps[0].do("INDIRECT_START_PTR"))
+            except (am_mod.Undefined, am_mod.Spin):
+                continue
+            datas.append(w)
+            nsweep += 1
+    shard.event("sweep_inputs", nsweep)
     bins = []
     try:
         for i, c in enumerate(comps):
